@@ -75,6 +75,25 @@ def run_case(c):
         if k == "enc_timedelta":
             return {"ok": True, "outcome": real_outcome(lambda: dtools.timedelta_to_hexadecimal_seconds(dec(i["full_time"])))}
         return {"ok": True, "outcome": real_outcome(lambda: dtools.string_to_hexadecimale_device_name(dec(i["name"])))}
+    if k == "two_dates":
+        # the same create_schedule request on different local dates in ONE process: each frame carries that day's epochs (a
+        # remembered encoding of 'HH:MM' from an earlier day would be a day or more off)
+        import time as _time
+        from . import n_c11           # installs the date-aware today_epoch of the specification
+        n = 0
+        inp = {"dev_id": canon(bytes(3)), "dev_key": canon(b"\x00"), "R1": canon(bytes(44)), "R2": canon(b"ok"), "now": 1700000000,
+               "start": "10:00", "end": "11:30", "days": canon({dec(canon(list(__import__("aioswitcher.schedule", fromlist=["Days"]).Days)[0]))})}
+        for (y, mo, d) in ((2026, 3, 1), (2026, 3, 2), (2026, 10, 25), (2027, 1, 1), (2026, 3, 1)):
+            noon = int(_time.mktime((y, mo, d, 12, 0, 0, 0, 0, -1)))
+            with n_c11.fixed_today(noon):
+                r = n_api.run_operation("create_schedule", 1, inp)
+                ts = n_api.ts_of(1700000000)
+                want = n_api.expected_frames("create_schedule", 1, inp, bytes(4), ts)
+            n += 1
+            if r["k"] != "ret" or [bytes(w) for w in r["writes"]] != [bytes(w) for w in want]:
+                return {"ok": False, "evaluations": n, "detail": f"create_schedule 10:00-11:30 on {y}-{mo:02d}-{d:02d} (after the same request on earlier dates)",
+                        "outcome": [w.hex() for w in r["writes"]], "expected": [bytes(w).hex() for w in want]}
+        return {"ok": True, "evaluations": n}
     if k == "sweep":
         rnd = random.Random(i["seed"])
         for n in range(i["n"]):
